@@ -74,6 +74,8 @@ var c08Routes = []string{"fn forms written in the text", "functions defined thro
 	"every function defined in a module of its own", "recursive call built by a user macro inside its expansion",
 	"functions with a rest parameter, called with extra arguments", "functions whose only parameter is a rest parameter"}
 
+var c08Contexts = []string{"background", "cancellable, never cancelled", "deadline one hour away", "cancellable child of a context with a deadline", "context carrying a value"}
+
 func (s c08shape) programVia(n int, nonTail bool, route int) string {
 	var sb strings.Builder
 	sb.WriteString("(do ")
@@ -143,7 +145,28 @@ func init() {
 			}
 			return shapes
 		}
+		// the context the evaluation runs under: 0 = background, 1 = cancellable (never cancelled), 2 = with a deadline
+		// one hour away, 3 = cancellable child of a context with a deadline, 4 = a context carrying a value
+		evalCtx := 0
+		type c08key struct{}
+		ctxOf := func() (context.Context, func()) {
+			switch evalCtx {
+			case 1:
+				return context.WithCancel(context.Background())
+			case 2:
+				return context.WithTimeout(context.Background(), 3600e9)
+			case 3:
+				p, c1 := context.WithTimeout(context.Background(), 3600e9)
+				c, c2 := context.WithCancel(p)
+				return c, func() { c2(); c1() }
+			case 4:
+				return context.WithValue(context.Background(), c08key{}, 1), func() {}
+			}
+			return context.Background(), func() {}
+		}
 		runVia := func(text string, route int) ([]int, error, *lx.Panic) {
+			ctx, cancel := ctxOf()
+			defer cancel()
 			depths = depths[:0]
 			scope := env.NewSubordinateEnv(base)
 			ast := lx.MustRead(text)
@@ -159,19 +182,19 @@ func init() {
 					if rerr != nil {
 						return nil, rerr, nil
 					}
-					if _, err, p = lx.Eval(context.Background(), one, scope); err != nil || p != nil {
+					if _, err, p = lx.Eval(ctx, one, scope); err != nil || p != nil {
 						break
 					}
 				}
 				return append([]int{}, depths...), err, p
 			}
-			_, err, p := lx.Eval(context.Background(), ast, scope)
+			_, err, p := lx.Eval(ctx, ast, scope)
 			return append([]int{}, depths...), err, p
 		}
 		run := func(text string) ([]int, error, *lx.Panic) { return runVia(text, 0) }
 		fam := &vf.Family{
 			Name:     "loop-shapes",
-			Bounds:   "every nesting of depth 0..2 (quick) / 0..3 (thorough) of the 11 tail-position constructs (do-last, let-body-last, let with empty / list-form bindings, if-then, if-else, cond clause, and-last, or-last, fn-body-last, a fully unquoted quasiquote) around the recursive call x {self, 2-way mutual, 3-way mutual recursion} x 7 routes (fn forms written in the text; functions defined through a defn-style macro; whole program as an AST without source positions; every function in a module of its own; the recursive call built by a user macro inside its expansion; functions with a rest parameter called with extra arguments; functions whose only parameter is a rest parameter); iteration counts 3, 5, 50 (host stack depth at every iteration); the plain recursions and every single construct around a self call also run 150 000 iterations to completion (thorough: all shapes of nesting depth <=1, 400 000 iterations), thorough: additionally 20000 iterations under a 1 MiB stack limit",
+			Bounds:   "every nesting of depth 0..2 (quick) / 0..3 (thorough) of the 11 tail-position constructs (do-last, let-body-last, let with empty / list-form bindings, if-then, if-else, cond clause, and-last, or-last, fn-body-last, a fully unquoted quasiquote) around the recursive call x {self, 2-way mutual, 3-way mutual recursion} x 5 kinds of context the evaluation runs under (background; cancellable and never cancelled; deadline one hour away; cancellable child of a context with a deadline; a context carrying a value: 50 iterations each on the text route, the other routes under one of the non-background kinds) x 7 routes (fn forms written in the text; functions defined through a defn-style macro; whole program as an AST without source positions; every function in a module of its own; the recursive call built by a user macro inside its expansion; functions with a rest parameter called with extra arguments; functions whose only parameter is a rest parameter); iteration counts 3, 5, 50 (host stack depth at every iteration); the plain recursions and every single construct around a self call also run 150 000 iterations to completion (thorough: all shapes of nesting depth <=1, 400 000 iterations), thorough: additionally 20000 iterations under a 1 MiB stack limit",
 			Setup:    setup,
 			Timeout:  1500e9,
 			N:        func(t string) int64 { tier = t; return int64(len(shapesOf())) },
@@ -187,15 +210,22 @@ func init() {
 					lx.Eval(context.Background(), lx.MustRead("(+ 1 2)"), env.NewSubordinateEnv(base))
 					lisp.Stepper = nil
 				}
-				for _, rn := range []struct{ route, n int }{{0, 3}, {0, 5}, {0, 50}, {1, 5}, {1, 50}, {2, 5}, {2, 50}, {3, 5}, {3, 50}, {4, 5}, {4, 50}, {5, 5}, {5, 50}, {6, 5}, {6, 50}} {
+				defer func() { evalCtx = 0 }()
+				for _, rn := range []struct{ route, n, ctx int }{{0, 3, 0}, {0, 5, 0}, {0, 50, 0}, {1, 5, 0}, {1, 50, 0}, {2, 5, 0}, {2, 50, 0}, {3, 5, 0}, {3, 50, 0}, {4, 5, 0}, {4, 50, 0}, {5, 5, 0}, {5, 50, 0}, {6, 5, 0}, {6, 50, 0},
+					{0, 50, 1}, {0, 50, 2}, {0, 50, 3}, {0, 50, 4}, {2, 50, 2}, {1, 50, 3}, {4, 50, 2}, {5, 50, 1}, {3, 50, 2}} {
 					n := rn.n
+					evalCtx = rn.ctx
 					d, err, p := runVia(s.programVia(n, false, rn.route), rn.route)
+					evalCtx = 0
 					r.Exec(1)
 					if rn.route != 0 {
 						r.Outcome("route: " + c08Routes[rn.route])
 					}
+					if rn.ctx != 0 {
+						r.Outcome("context: " + c08Contexts[rn.ctx])
+					}
 					if p != nil || err != nil {
-						r.Violation("tail-recursive loop fails", fmt.Sprintf("%s n=%d (%s): err=%v panic=%v", s.names(), n, c08Routes[rn.route], err, p))
+						r.Violation("tail-recursive loop fails", fmt.Sprintf("%s n=%d (%s; context: %s): err=%v panic=%v", s.names(), n, c08Routes[rn.route], c08Contexts[rn.ctx], err, p))
 						return
 					}
 					if len(d) != n+1 {
@@ -205,7 +235,7 @@ func init() {
 					// iterations 2..n (the first one is entered from the top-level call)
 					for k := 2; k < len(d); k++ {
 						if d[k] != d[1] {
-							r.Violation("host stack depth grows in a tail-recursive loop", fmt.Sprintf("%s n=%d (%s): depth at iteration 2 is %d, at iteration %d is %d (depths %v)", s.names(), n, c08Routes[rn.route], d[1], k+1, d[k], trunc(d, 12)))
+							r.Violation("host stack depth grows in a tail-recursive loop", fmt.Sprintf("%s n=%d (%s; context: %s): depth at iteration 2 is %d, at iteration %d is %d (depths %v)", s.names(), n, c08Routes[rn.route], c08Contexts[rn.ctx], d[1], k+1, d[k], trunc(d, 12)))
 							return
 						}
 					}
